@@ -328,30 +328,60 @@ struct MpSession : public vw::Session {
       if (!ok(b)) return false;
     return ok(w.transaction.blockOfProof);
   }
-  // ids (per type) of in-flight payloads that the next connect pass must take out of the in-flight maps
+  // ids (per type) of in-flight payloads that the next connect pass must take out of the in-flight maps.
+  // The pass handles VbkBlocks, then VTBs, then ATVs, each in the height order of the block they carry, so the
+  // parent of a carried block may also be supplied by a payload handled EARLIER in the same pass:
+  //   VbkBlock: tree, or an in-flight VbkBlock that connects;
+  //   VTB     : the above, or the containing block of an in-flight VTB that connects (lower height => earlier);
+  //   ATV     : the above, or the block of proof of an in-flight ATV that connects.
+  // "connects" = passes the contextual check, its own VBK context is available in this sense, and (VTB) its BTC
+  // context is already present before the pass.
   void mustConnect(Instance& I, std::set<std::string> out[3]) {
     auto& mp = *I.mempool;
+    const typename MemPool::payload_map<ATV>& fa = mp.getInFlightMap<ATV>();
+    const typename MemPool::payload_map<VTB>& fw = mp.getInFlightMap<VTB>();
+    const typename MemPool::payload_map<VbkBlock>& fv = mp.getInFlightMap<VbkBlock>();
+    auto key = [&](const VbkBlock& b) {
+      auto h = b.getHash().template trimLE<VbkBlock::prev_hash_t::size()>();
+      return std::to_string(b.getHeight()) + ":" + vh::hex(h.data(), h.size());
+    };
+    auto pkey = [&](const VbkBlock& b) {
+      auto h = b.getPreviousBlock();
+      return std::to_string(b.getHeight() - 1) + ":" + vh::hex(h.data(), h.size());
+    };
+    std::set<std::string> supplied;  // blocks that will be in the temporary tree when later payloads are handled
+    auto avail = [&](const VbkBlock& b) { return vbkPresent(mp, b.getPreviousBlock()) || supplied.count(pkey(b)) != 0; };
+    // process in the order of the pass; within a type by ascending height of the carried block
     {
-      const typename MemPool::payload_map<ATV>& m = mp.getInFlightMap<ATV>();
-      for (auto& kv : m) {
+      std::vector<const VbkBlock*> l;
+      for (auto& kv : fv) l.push_back(kv.second.get());
+      std::sort(l.begin(), l.end(), [](const VbkBlock* a, const VbkBlock* b) { return a->getHeight() < b->getHeight(); });
+      for (auto* b : l)
+        if (avail(*b)) { out[2].insert(idname(*reg, b->getId())); supplied.insert(key(*b)); }
+    }
+    {
+      std::vector<const VTB*> l;
+      for (auto& kv : fw) l.push_back(kv.second.get());
+      std::sort(l.begin(), l.end(), [](const VTB* a, const VTB* b) { return a->containingBlock.getHeight() < b->containingBlock.getHeight(); });
+      for (auto* w : l) {
         ValidationState st;
-        if (mp.mempool_tree_.checkContextually(*kv.second, st) && vbkAvailable(mp, kv.second->blockOfProof))
-          out[0].insert(idname(*reg, kv.first));
+        if (mp.mempool_tree_.checkContextually(*w, st) && avail(w->containingBlock) && btcAvailable(mp, *w)) {
+          out[1].insert(idname(*reg, w->getId()));
+          supplied.insert(key(w->containingBlock));
+        }
       }
     }
     {
-      const typename MemPool::payload_map<VTB>& m = mp.getInFlightMap<VTB>();
-      for (auto& kv : m) {
+      std::vector<const ATV*> l;
+      for (auto& kv : fa) l.push_back(kv.second.get());
+      std::sort(l.begin(), l.end(), [](const ATV* a, const ATV* b) { return a->blockOfProof.getHeight() < b->blockOfProof.getHeight(); });
+      for (auto* t : l) {
         ValidationState st;
-        if (mp.mempool_tree_.checkContextually(*kv.second, st) && vbkAvailable(mp, kv.second->containingBlock) &&
-            btcAvailable(mp, *kv.second))
-          out[1].insert(idname(*reg, kv.first));
+        if (mp.mempool_tree_.checkContextually(*t, st) && avail(t->blockOfProof)) {
+          out[0].insert(idname(*reg, t->getId()));
+          supplied.insert(key(t->blockOfProof));
+        }
       }
-    }
-    {
-      const typename MemPool::payload_map<VbkBlock>& m = mp.getInFlightMap<VbkBlock>();
-      for (auto& kv : m)
-        if (vbkAvailable(mp, *kv.second)) out[2].insert(idname(*reg, kv.first));
     }
   }
   void checkConnected(Instance& I, const std::set<std::string> must[3], const char* op) {
